@@ -164,3 +164,59 @@ impl MappingsDiff {
 mod testing {
 	// TODO: test internals?
 }
+
+#[cfg(feature = "verif")]
+pub mod verif {
+	//! Verification hooks (feature `verif`): forwarding wrappers only. `Combination` is crate-private,
+	//! so the two sides are passed as `Option`s (at least one must be `Some`).
+	use std::hash::Hash;
+	use anyhow::Result;
+	use indexmap::IndexMap;
+	use super::diff_and_merge::Combination;
+	use crate::tree::mappings_diff::Action;
+	use crate::tree::{GetNames, NodeInfo, NodeJavadocInfo};
+
+	pub(crate) fn combination<'a, T>(a: Option<&'a T>, b: Option<&'a T>) -> Combination<&'a T> {
+		match (a, b) {
+			(Some(a), None) => Combination::A(a),
+			(None, Some(b)) => Combination::B(b),
+			(Some(a), Some(b)) => Combination::AB(a, b),
+			(None, None) => panic!("verif hook: at least one side must be given"),
+		}
+	}
+	pub(crate) fn sides<'a, T>(ab: Combination<&'a T>) -> (Option<&'a T>, Option<&'a T>) {
+		match ab {
+			Combination::A(a) => (Some(a), None),
+			Combination::B(b) => (None, Some(b)),
+			Combination::AB(a, b) => (Some(a), Some(b)),
+		}
+	}
+
+	pub fn zip_map_combination<K, V, W>(
+		a: Option<&IndexMap<K, V>>,
+		b: Option<&IndexMap<K, V>>,
+		combiner: impl Fn(Option<&V>, Option<&V>) -> Result<W>,
+	) -> Result<IndexMap<K, W>>
+		where
+			K: Hash + Eq + Clone,
+	{
+		super::diff_and_merge::zip_map_combination(combination(a, b), |ab| { let (a, b) = sides(ab); combiner(a, b) })
+	}
+
+	pub fn gen_diff_javadoc<Target, Javadoc>(a: Option<&Target>, b: Option<&Target>) -> Action<Javadoc>
+		where
+			Target: NodeJavadocInfo<Option<Javadoc>>,
+			Javadoc: Clone,
+	{
+		super::gen_diff_javadoc(combination(a, b))
+	}
+
+	pub fn gen_diff_names<Target, Name, Mapping>(a: Option<&Target>, b: Option<&Target>) -> Result<Action<Name>>
+		where
+			Target: NodeInfo<Mapping>,
+			Name: Clone,
+			Mapping: GetNames<2, Name>,
+	{
+		super::gen_diff_names(combination(a, b))
+	}
+}
